@@ -25,7 +25,8 @@ impl IppAttributes {
 }
 } // verus!'''},
     {'op': 'fn', 'path': 'is_header_attr', 'ret': 'r', 'attrs': ['#[verifier::external_body]']},
-    {'op': 'fn', 'path': 'IppAttribute::new', 'ret': 'r', 'attrs': ['#[verifier::external_body]']},
+    {'op': 'fn', 'path': 'IppAttribute::new', 'ret': 'r', 'attrs': ['#[verifier::external_body]'],
+     'spec': '    ensures r.sname() == as_ref_str(&name), r.sval() == value,'},
     {'op': 'fn', 'path': 'IppAttribute::name', 'ret': 'r', 'spec': '    ensures r@ == self.sname(),'},
     {'op': 'fn', 'path': 'IppAttribute::value', 'ret': 'r', 'spec': '    ensures *r == self.sval(),'},
     {'op': 'fn', 'path': 'IppAttribute::into_value', 'ret': 'r', 'spec': '    ensures r == self.sval(),'},
@@ -33,14 +34,17 @@ impl IppAttributes {
     {'op': 'fn', 'path': 'IppAttributeGroup::new', 'ret': 'r', 'spec': '    ensures r.stag() == tag, r.sattrs() == Map::<String, IppAttribute>::empty(),'},
     {'op': 'fn', 'path': 'IppAttributeGroup::tag', 'ret': 'r', 'spec': '    ensures r == self.stag(),'},
     {'op': 'fn', 'path': 'IppAttributeGroup::attributes', 'ret': 'r', 'spec': '    ensures r@ == self.sattrs(),'},
-    {'op': 'fn', 'path': 'IppAttributeGroup::attributes_mut', 'ret': 'r', 'attrs': ['#[verifier::external_body]']},
+    {'op': 'fn', 'path': 'IppAttributeGroup::attributes_mut', 'ret': 'r',
+     'spec': '    ensures r@ == old(self).sattrs(), final(r)@ == final(self).sattrs(), final(self).stag() == old(self).stag(),'},
     {'op': 'fn', 'path': 'IppAttributeGroup::into_attributes', 'ret': 'r', 'spec': '    ensures r@ == self.sattrs(),'},
     {'op': 'fn', 'path': 'IppAttributes::new', 'ret': 'r', 'attrs': ['#[verifier::external_body]'], 'spec': '    ensures r.sgroups().len() == 0,'},
     {'op': 'fn', 'path': 'IppAttributes::groups', 'ret': 'r', 'spec': '    ensures r@ == self.sgroups(),'},
-    {'op': 'fn', 'path': 'IppAttributes::groups_mut', 'ret': 'r', 'attrs': ['#[verifier::external_body]']},
+    {'op': 'fn', 'path': 'IppAttributes::groups_mut', 'ret': 'r',
+     'spec': '    ensures r@ == old(self).sgroups(), final(r)@ == final(self).sgroups(),'},
     {'op': 'fn', 'path': 'IppAttributes::into_groups', 'ret': 'r', 'spec': '    ensures r@ == self.sgroups(),'},
     {'op': 'fn', 'path': 'IppAttributes::groups_of', 'attrs': ['#[verifier::external_body]']},
-    {'op': 'fn', 'path': 'IppAttributes::add', 'attrs': ['#[verifier::external_body]']},
+    {'op': 'fn', 'path': 'IppAttributes::add', 'attrs': ['#[verifier::external_body]'],
+     'spec': '''    ensures abs_groups(*final(self)) == spec_add(abs_groups(*old(self)), tag, attribute.sname(), aval(attribute.sval())),'''},
     {'op': 'fn', 'path': 'IppAttributes::to_bytes', 'ret': 'r', 'attrs': ['#[verifier::external_body]'],
      'spec': '    ensures buf_seq(&r) == spec_attrs_bytes(self),'},
 ]
